@@ -478,7 +478,8 @@ def tangents(at, cmap=None):
 class Labelling:
     """how the realisation numbers and stores things (environment choices, not data)"""
 
-    def __init__(self, vmap=None, emap=None, cmap_ids=None, cell_order=None, shifts=None, flips=None, eflip=None):
+    def __init__(self, vmap=None, emap=None, cmap_ids=None, cell_order=None, shifts=None, flips=None, eflip=None, vorder=None):
+        self.vorder = vorder          # order in which vertices are INSERTED into the dict: None (natural) | "id" (ascending new id) | "rev" | ["rot", n]
         self.vmap = vmap              # ["id"] | ["rev"] | ["gap", mul, add] | ["off", n] | ["swap", i, j] | ["perm", [...]]
         self.emap = emap
         self.cmap_ids = cmap_ids
@@ -490,7 +491,7 @@ class Labelling:
     @staticmethod
     def from_json(d):
         d = d or {}
-        return Labelling(d.get("vmap"), d.get("emap"), d.get("cids"), d.get("order"), d.get("shifts"), d.get("flips"), d.get("eflip"))
+        return Labelling(d.get("vmap"), d.get("emap"), d.get("cids"), d.get("order"), d.get("shifts"), d.get("flips"), d.get("eflip"), d.get("vorder"))
 
 
 def _idmap(spec, n):
@@ -543,8 +544,17 @@ def realise(at, k=3, cmap=None, lab=None, post=None):
     nv = len(coords)
     vm = _idmap(lab.vmap, nv)
     vertices = {}
-    # vertices are inserted in increasing natural order (parsers insert in file order)
-    for i in range(nv):
+    # vertices are inserted in increasing natural order (parsers insert in file order) unless the labelling says otherwise:
+    # the order of the dict is what every 'for v in vertices.values()' of the library sees
+    ins = list(range(nv))
+    if lab.vorder == "id":
+        ins.sort(key=lambda i: vm[i])
+    elif lab.vorder == "rev":
+        ins.reverse()
+    elif isinstance(lab.vorder, (list, tuple)) and lab.vorder and lab.vorder[0] == "rot":
+        r_ = lab.vorder[1] % max(nv, 1)
+        ins = ins[r_:] + ins[:r_]
+    for i in ins:
         vertices[vm[i]] = fv.Vertex(vm[i], float(coords[i].real), float(coords[i].imag))
     segs = []
     for ch in chains_nat:
